@@ -960,7 +960,7 @@ def token_value(hit, as_int):
     sym, spec = hit
     c = ctx()
     orig = sym.e
-    if spec in ('str', 'repr', '', 'd', 'r') or (sym.is_int and spec in ('g', '.0f')):
+    if spec in ('str', 'repr', '', 'd', 'r') or (sym.is_int and (spec in ('g', '.0f') or spec.endswith('d'))):
         out = sym
     else:
         o = real(sym)
@@ -1169,7 +1169,7 @@ def install_pandas_shim():
 
 def install_shims(module, names=('int', 'float', 'isinstance', 'math')):
     """inject polymorphic builtins into a module's globals; returns an undo function"""
-    table = {'int': SInt, 'float': SFloat, 'isinstance': s_isinstance, 'math': MATH, 'np': NP, 'numpy': NP,
+    table = {'int': SInt, 'float': SFloat, 'isinstance': s_isinstance, 'math': MATH, 'np': NP, 'numpy': NP, 'json': JSON,
              'abs': abs, 'round': round, 'min': s_min, 'max': s_max}
     saved = {}
     for n in names:
@@ -1431,3 +1431,58 @@ def scratch():
         yield c
     finally:
         Ctx.cur = prev
+
+
+class JsonShim:
+    """drop-in for the `json` module inside modules under test: proxies are written as their all-digit token (a JSON integer
+    literal, which json reads back exactly) and turned back into the proxy on load (repr round trip of a float is exact)"""
+    def __getattr__(self, n):
+        import json
+        return getattr(json, n)
+
+    @staticmethod
+    def _enc(o):
+        if isinstance(o, Sym):
+            return int(TOKENS.format(o, 'repr'))
+        if isinstance(o, SymB):
+            raise HarnessError('symbolic bool in JSON')
+        if isinstance(o, np.ndarray):
+            return list(o)
+        if isinstance(o, (np.integer,)):
+            return int(o)
+        if isinstance(o, (np.floating,)):
+            return float(o)
+        raise TypeError('Object of type %s is not JSON serializable' % type(o).__name__)
+
+    @staticmethod
+    def _dec(x):
+        if isinstance(x, dict):
+            return {k: JsonShim._dec(v) for k, v in x.items()}
+        if isinstance(x, list):
+            return [JsonShim._dec(v) for v in x]
+        if isinstance(x, int) and not isinstance(x, bool) and x >= TokenTable.BASE:
+            hit = TOKENS.lookup(str(x))
+            if hit is not None:
+                return hit[0]
+        return x
+
+    def dump(self, obj, fp, **kw):
+        import json
+        kw.setdefault('default', self._enc)
+        return json.dump(obj, fp, **kw)
+
+    def dumps(self, obj, **kw):
+        import json
+        kw.setdefault('default', self._enc)
+        return json.dumps(obj, **kw)
+
+    def load(self, fp, **kw):
+        import json
+        return self._dec(json.load(fp, **kw))
+
+    def loads(self, s, **kw):
+        import json
+        return self._dec(json.loads(s, **kw))
+
+
+JSON = JsonShim()
